@@ -269,6 +269,34 @@ def _shard(arg):
     return acc
 
 
+def grid_specs():
+    """every presence pattern of the seven Time fields with each present field on the edges of its range
+    (including day numbers that the month does not have, and DOW 0 / hour 0 / minute 0)"""
+    import itertools
+    t, _ = _types()
+    pods = sorted(t.pod_hours.keys())
+    axes = [[None, 1, 1900, 2020, 2021, 9999], [None, 1, 2, 4, 12], [None, 1, 28, 29, 30, 31], [None, 0, 12, 23],
+            [None, 0, 59], [None, 0, 6], [None, pods[0], pods[-1]]]
+    return [("T",) + c + (0, 0) for c in itertools.product(*axes)]
+
+
+def _grid(arg):
+    pid, part = arg
+    acc = core.Acc(pid)
+    for i, sa in enumerate(part):
+        sb = respan(sa, 3 + i % 5, 9 + i % 7)
+        pairs = [(sa, sb)]
+        if i % 4 == 0:
+            pairs.append((("I", sa, None, 0, 0), ("I", sb, None, 2, 5)))
+            pairs.append((("I", None, sa, 0, 0), ("I", part[(i * 7 + 1) % len(part)], sa, 2, 5)))
+        for x, y in pairs:
+            r = check_pair(x, y)
+            acc.case((x, y), nontrivial=True, cls=["grid", "kind:" + x[0]], sample={"a": x, "b": y, "mode": "grid"})
+            if r:
+                acc.fail(r[0], {"a": x, "b": y}, r[1])
+    return acc
+
+
 def _gold(arg):
     pid, part = arg
     _, corpus = _types()
@@ -302,6 +330,7 @@ def run(ctx):
     n = 60000 if ctx.thorough else 6000
     shards = 16
     acc = core.pmap_acc(ctx.pid, _shard, [(ctx.pid, ctx.seed, n // shards, i) for i in range(shards)])
+    acc.merge(core.pmap_acc(ctx.pid, _grid, [(ctx.pid, p) for p in core.chunks(grid_specs(), 32)]))
     golds = gold_strings()
     acc.merge(core.pmap_acc(ctx.pid, _gold, [(ctx.pid, p) for p in core.chunks(golds, 8)]))
     return core.finish(ctx, acc, RULE, assumptions=[
